@@ -506,6 +506,10 @@ func (x *Exec) callWith(f *frame, in ssa.Instruction, c *ssa.CallCommon, args []
 				// call through a package-level function variable: the site is named after the variable
 				x.siteAssertions(st, in, g.Name(), args)
 			}
+			if al, ok := ld.X.(*ssa.Alloc); ok && al.Comment != "" {
+				// call through a function-valued parameter or local: the site is named after it
+				x.siteAssertions(st, in, al.Comment, args)
+			}
 			if fa, ok := ld.X.(*ssa.FieldAddr); ok {
 				// call through a function-valued struct field: the site is named after the field
 				x.siteAssertions(st, in, deref(fa.X.Type()).Underlying().(*types.Struct).Field(fa.Field).Name(), args)
@@ -882,7 +886,7 @@ func (x *Exec) rangeNext(f *frame, in *ssa.Next) {
 func (x *Exec) chanRecv(f *frame, in *ssa.UnOp) {
 	st := f.st
 	x.abstract("channel receive (yield point: heap havocked)")
-	x.unknownEffect(st, in.Pos())
+	x.yieldEffect(st, in)
 	et := in.X.Type().Underlying().(*types.Chan).Elem()
 	v := Val{T: x.havocValue(st, et, "recv")}
 	if in.CommaOk {
@@ -899,7 +903,7 @@ func (x *Exec) chanSend(f *frame, in *ssa.Send) {
 	h := x.heapGet(st, "Chan_closed", "(Array Int Bool)")
 	x.safety(st, "chan", not(sx("select", h, ch)), in.Pos())
 	x.abstract("blocking channel send (yield point: heap havocked)")
-	x.unknownEffect(st, in.Pos())
+	x.yieldEffect(st, in)
 }
 
 func (x *Exec) selectStmt(f *frame, in *ssa.Select) {
@@ -942,7 +946,7 @@ func (x *Exec) selectStmt(f *frame, in *ssa.Select) {
 	}
 	if in.Blocking {
 		x.abstract("blocking select (yield point: heap havocked)")
-		x.unknownEffect(st, in.Pos())
+		x.yieldEffect(st, in)
 	} else {
 		st.heap["Chan_len"] = x.define(x.fresh("Chan_len"), "(Array Int Int)", newLen)
 	}
